@@ -1,4 +1,6 @@
-\* NEGATIVE config: the pinned isEmpty() (trusts stale counters after down-sampling).  TLC must report ResultOK violated.
+\* NEGATIVE config: the pinned isEmpty() (trusts stale counters) together with the pinned copy_or_downsample (rebuild left
+\* pending; with the rebuild of fix 96157e7 the counters are current and the old isEmpty() is harmless).  TLC must report
+\* EmptyOK violated.
 SPECIFICATION Spec
 CONSTANTS LgMaxK = 2
  Inputs <- Catalogue
@@ -6,6 +8,7 @@ CONSTANTS LgMaxK = 2
  PromoteCount <- PC2
  FixedIsEmpty = FALSE
  FixedReset = TRUE
-INVARIANT ResultOK EmptyOK CountersOK UInvOK
+ FixedDownsampleKxq = FALSE
+INVARIANT ResultOK EmptyOK CountersOK HipOK UInvOK
 PROPERTY Refines
 CHECK_DEADLOCK FALSE
